@@ -162,6 +162,17 @@ def run(ctx):
         for stepi in range(fl):
             o = rng.randrange(4)
             j = rng.randrange(64)
+            if g in ('RxSO3', 'Sim3') and o < 2:
+                # keep the random walk of the scale inside the dtype's range (float32 overflows after ~10^3 unsteered
+                # products): when the scale has drifted, compose with a pool element that brings it back
+                sc_now = float(X.scale().reshape(-1)[0])
+                if sc_now > 30.0 or sc_now < 1.0 / 30.0:
+                    want_small = sc_now > 1.0
+                    for _ in range(64):
+                        sj = float(pool[j].scale().reshape(-1)[0])
+                        if (sj < 1.0) == want_small:
+                            break
+                        j = rng.randrange(64)
             if o == 0:
                 X = pool[j] @ X
             elif o == 1:
